@@ -13,10 +13,11 @@ package types
 //@ end
 
 // a collection is built from a class definition and the list of its tokens: the definition is kept as it is and every
-// token of the list is added (count level: the tokens are interface values)
+// token of the list is added (the tokens are interface values of the one implementation type BaseNFT)
 //@ func NewCollection(denom, nfts)
 //@   property C12, C14
 //@   returns c
 //@   invariant #1 idx: rangeindex >= 0 - 1 && rangeindex < len(nfts) && len(c.NFTs) == rangeindex + 1 && c.Denom == denom
-//@   ensures kept: c.Denom == denom && len(c.NFTs) == len(nfts)
+//@   invariant #1 each: forall j:Int :: 0 <= j && j <= rangeindex ==> c.NFTs[j] == nfts[j]
+//@   ensures kept: c.Denom == denom && len(c.NFTs) == len(nfts) && (forall j:Int :: 0 <= j && j < len(nfts) ==> c.NFTs[j] == nfts[j])
 //@ end
